@@ -113,10 +113,158 @@ fn bytes_of(p: &Packet) -> Vec<u8> {
 }
 
 pub fn gen_case(rng: &mut Rng, role_n: u64, ver: u64, bias: u64, abuse: bool, st: &mut CaseStats) -> (String, u64) {
+    gen_case_pair(rng, role_n, ver, bias, abuse, 0, st)
+}
+
+/// pair = 0: one object; 10: reused object vs fresh object (C10); 16: original vs restored object (C16)
+pub fn gen_case_pair(rng: &mut Rng, role_n: u64, ver: u64, bias: u64, abuse: bool, pair: u64, st: &mut CaseStats) -> (String, u64) {
     match role_n {
-        0 => drive::<role::Client>(rng, role_n, ver, bias, abuse, st),
-        1 => drive::<role::Server>(rng, role_n, ver, bias, abuse, st),
-        _ => drive::<role::Any>(rng, role_n, ver, bias, abuse, st),
+        0 => drive::<role::Client>(rng, role_n, ver, bias, abuse, pair, st),
+        1 => drive::<role::Server>(rng, role_n, ver, bias, abuse, pair, st),
+        _ => drive::<role::Any>(rng, role_n, ver, bias, abuse, pair, st),
+    }
+}
+
+type Snapshot = (Vec<GenericStorePacket<Pid>>, Vec<u64>);
+
+/// ids in use that no library set and no stored packet accounts for: the application holds them
+fn app_held_ids(s: &mqtt::connection::core::VerifState, store_ids: &[u64]) -> Vec<u64> {
+    let mut used: Vec<u64> = Vec::new();
+    let mut next: u64 = 1;
+    let mut free = s.pid_free.clone();
+    free.sort();
+    for (l, h) in free {
+        let mut id = next;
+        while id < l && used.len() < 2000 {
+            used.push(id);
+            id += 1;
+        }
+        next = h + 1;
+    }
+    let mut id = next;
+    while id <= IDMAX && used.len() < 2000 {
+        used.push(id);
+        id += 1;
+    }
+    used.retain(|id| {
+        !(s.pid_puback.contains(id) || s.pid_pubrec.contains(id) || s.pid_pubcomp.contains(id)
+            || s.pid_suback.contains(id) || s.pid_unsuback.contains(id) || store_ids.contains(id))
+    });
+    used
+}
+
+/// the switch of a paired case: (C16: export,) transport closed, application-held ids released.
+/// Returns the snapshot a restored object is given.
+fn pair_switch<R: role::RoleType>(run: &mut Runner<R>, pair: u64, st: &mut CaseStats) -> Snapshot {
+    let export = |run: &Runner<R>| -> Snapshot {
+        let c = run.conn.as_ref().unwrap();
+        let mut q: Vec<u64> = c.get_qos2_publish_handled().iter().map(|x| *x as u64).collect();
+        q.sort();
+        (c.get_stored_packets(), q)
+    };
+    let persistent = run.conn.as_ref().unwrap().verif_state().need_store;
+    let before = export(run);
+    run.apply(&Op::Closed, st);
+    if run.dead {
+        return before;
+    }
+    let s = run.conn.as_ref().unwrap().verif_state();
+    let store_ids: Vec<u64> = run.conn.as_ref().unwrap().get_stored_packets().iter().map(|p| p.packet_id() as u64).collect();
+    for id in app_held_ids(&s, &store_ids) {
+        run.apply(&Op::Release(id), st);
+        if run.dead {
+            return before;
+        }
+    }
+    if pair == 16 && persistent { before } else { export(run) }
+}
+
+/// build the second object of a paired case from the first one's log and run the common script
+fn pair_second<R: role::RoleType>(a: &Runner<R>, version: Version, role_n: u64, ver: u64, pair: u64, k_a: usize, snap: &Snapshot, st: &mut CaseStats) -> Runner<R> {
+    let mut b = Runner::<R>::new(version, role_n, ver);
+    b.out.insert(0, a.out[0]);
+    for o in &a.log[..k_a.min(a.log.len())] {
+        match o {
+            Op::SetPingreqInterval(_) | Op::SetPingrespTimeout(_) | Op::SetFlag(_, _) => {
+                b.apply(o, st);
+            }
+            _ => {}
+        }
+    }
+    if pair == 16 {
+        b.apply(&Op::RestorePackets(snap.0.clone()), st);
+        b.apply(&Op::RestoreQos2(snap.1.clone()), st);
+    }
+    b
+}
+
+fn pair_line<R: role::RoleType>(a: &Runner<R>, b: &Runner<R>, pair: u64, k_a: usize, k_b: usize) -> String {
+    let mut s = String::with_capacity((a.out.len() + b.out.len()) * 4 + 32);
+    s.push_str(&format!("pair {} {} {} {}", pair, k_a, k_b, a.out.len()));
+    for x in a.out.iter().chain(b.out.iter()) {
+        s.push(' ');
+        s.push_str(&x.to_string());
+    }
+    s
+}
+
+/// replay of a paired case: tokens as for replay_case, plus the kind and the switch index
+pub fn replay_pair(pair: u64, k_a: usize, hdr: &[u64], ops: &[Op]) -> String {
+    fn go<R: role::RoleType>(pair: u64, k_a: usize, hdr: &[u64], ops: &[Op]) -> String {
+        let version = match hdr[4] {
+            4 => Version::V3_1_1,
+            5 => Version::V5_0,
+            _ => Version::Undetermined,
+        };
+        let mut st = CaseStats::new();
+        let mut run = Runner::<R>::new(version, hdr[1], hdr[4]);
+        run.out.insert(0, hdr[0]);
+        // the snapshot is taken where the generator took it: before the Closed that precedes k_a
+        // (persistent session) or at k_a
+        let mut snap: Snapshot = (Vec::new(), Vec::new());
+        let export = |run: &Runner<R>| -> Snapshot {
+            let c = run.conn.as_ref().unwrap();
+            let mut q: Vec<u64> = c.get_qos2_publish_handled().iter().map(|x| *x as u64).collect();
+            q.sort();
+            (c.get_stored_packets(), q)
+        };
+        // find the last Closed before k_a
+        let mut close_at = None;
+        for (i, o) in ops.iter().enumerate().take(k_a) {
+            if let Op::Closed = o {
+                close_at = Some(i);
+            }
+        }
+        let mut taken = false;
+        for (i, o) in ops.iter().enumerate() {
+            if run.dead {
+                break;
+            }
+            if !taken && Some(i) == close_at && pair == 16 && run.conn.as_ref().unwrap().verif_state().need_store {
+                snap = export(&run);
+                taken = true;
+            }
+            if !taken && i == k_a {
+                snap = export(&run);
+                taken = true;
+            }
+            run.apply(o, &mut st);
+        }
+        if !taken && !run.dead {
+            snap = export(&run);
+        }
+        let k_a = k_a.min(run.log.len());
+        let mut b = pair_second(&run, version, hdr[1], hdr[4], pair, k_a, &snap, &mut st);
+        let k_b = b.nops as usize;
+        for o in &run.log[k_a..] {
+            b.apply(o, &mut st);
+        }
+        pair_line(&run, &b, pair, k_a, k_b)
+    }
+    match hdr[1] {
+        0 => go::<role::Client>(pair, k_a, hdr, ops),
+        1 => go::<role::Server>(pair, k_a, hdr, ops),
+        _ => go::<role::Any>(pair, k_a, hdr, ops),
     }
 }
 
@@ -143,7 +291,7 @@ pub fn replay_case(hdr: &[u64], ops: &[Op]) -> String {
     }
 }
 
-fn drive<R: role::RoleType>(rng: &mut Rng, role_n: u64, ver: u64, bias: u64, abuse: bool, stats: &mut CaseStats) -> (String, u64) {
+fn drive<R: role::RoleType>(rng: &mut Rng, role_n: u64, ver: u64, bias: u64, abuse: bool, pair: u64, stats: &mut CaseStats) -> (String, u64) {
     let version = match ver {
         4 => Version::V3_1_1,
         5 => Version::V5_0,
@@ -228,10 +376,60 @@ fn drive<R: role::RoleType>(rng: &mut Rng, role_n: u64, ver: u64, bias: u64, abu
         run.apply(&Op::SetPingreqInterval(o), &mut st);
     }
 
-    let nops = rng.range(8, 60);
+    let mut nops = rng.range(8, 60);
+    let switch_at = if pair != 0 { rng.range(3, 30) } else { u64::MAX };
+    let mut k_a: Option<usize> = None;
+    let mut snap: Snapshot = (Vec::new(), Vec::new());
     let mut guard = 0;
     while run.nops < nops && !run.dead && guard < 400 {
         guard += 1;
+        if pair != 0 && k_a.is_none() && run.nops >= switch_at {
+            // ---- the first connection ends here; the script common to both objects starts ----
+            snap = pair_switch(&mut run, pair, &mut st);
+            if run.dead {
+                break;
+            }
+            g.held.clear();
+            g.limbo.clear();
+            g.in_q1.clear();
+            g.in_q2.clear();
+            g.in_rel.clear();
+            k_a = Some(run.nops as usize);
+            nops = run.nops + rng.range(4, 30);
+            let wv = g.wire_ver;
+            if pair == 10 {
+                // a new session: clean start, or (client) session not present in the CONNACK
+                if g.as_client {
+                    if rng.chance(3, 4) {
+                        run.apply(&Op::Send(mk_connect_opts(rng, wv, Some(true), None)), &mut st);
+                    } else {
+                        run.apply(&Op::Send(mk_connect_opts(rng, wv, Some(false), None)), &mut st);
+                        let b = bytes_of(&mk_connack_sp(rng, wv, false));
+                        feed(&mut run, rng, b, &mut g, &mut st, false);
+                    }
+                } else {
+                    let b = bytes_of(&mk_connect_opts(rng, wv, Some(true), None));
+                    feed(&mut run, rng, b, &mut g, &mut st, false);
+                }
+            } else {
+                // the session is resumed
+                if g.as_client {
+                    run.apply(&Op::Send(mk_connect_opts(rng, wv, Some(false), Some(100))), &mut st);
+                    let b = bytes_of(&mk_connack_sp(rng, wv, true));
+                    feed(&mut run, rng, b, &mut g, &mut st, false);
+                } else {
+                    let b = bytes_of(&mk_connect_opts(rng, wv, Some(false), Some(100)));
+                    feed(&mut run, rng, b, &mut g, &mut st, false);
+                    if !run.dead {
+                        run.apply(&Op::Send(mk_connack_sp(rng, wv, true)), &mut st);
+                    }
+                }
+            }
+            if !run.dead {
+                observe(&run, &mut g);
+            }
+            continue;
+        }
         let s = run.conn.as_ref().unwrap().verif_state();
         // contract: the transport is reported closed right after a close request
         if contains_close(&run.last_events) && (!abuse || rng.chance(1, 2)) {
@@ -293,6 +491,11 @@ fn drive<R: role::RoleType>(rng: &mut Rng, role_n: u64, ver: u64, bias: u64, abu
                 _ => {
                     let which = rng.range(6, 10);
                     let b = rng.chance(2, 3);
+                    // paired cases: offline publishing (which turns the session persistent on the spot)
+                    // is an option configured between connections, not in the middle of one
+                    if pair != 0 && which == 6 && b && s.status != 0 {
+                        continue;
+                    }
                     if which == 7 {
                         g.auto_pub = b;
                     }
@@ -429,6 +632,20 @@ fn drive<R: role::RoleType>(rng: &mut Rng, role_n: u64, ver: u64, bias: u64, abu
             }
         }
         observe(&run, &mut g);
+    }
+    if pair != 0 {
+        if k_a.is_none() && !run.dead {
+            snap = pair_switch(&mut run, pair, &mut st);
+            k_a = Some(run.nops as usize);
+        }
+        let k_a = k_a.unwrap_or(run.log.len()).min(run.log.len());
+        let mut b = pair_second(&run, version, role_n, ver, pair, k_a, &snap, &mut st);
+        let k_b = b.nops as usize;
+        for o in &run.log[k_a..] {
+            b.apply(o, &mut st);
+        }
+        stats.merge(&st);
+        return (pair_line(&run, &b, pair, k_a, k_b), run.nops);
     }
     stats.merge(&st);
     (run.line(), run.nops)
